@@ -238,5 +238,22 @@ for (lo, hi, st) in [((-1.0, -1.0, 0.5), (6.0, 4.0, 0.5 + 1.0 - eps), (1.0, 1.0,
 check("RangeSampler(min, max, stride).sample(scene): shape (X, Y, Z, 3), one index per k >= 0 with min + k * stride < max; [z, z + dz - eps] gives Z = 1", good_shape)
 check("... voxel [i, j, k] is the colour at min + (i, j, k) * stride: red (1, 0, 0) inside the UNION of the scene's objects, the black background outside", good_vals)
 
+# ------------------------------------------------------------------------------------------------ D. functools.cache / lru_cache
+import functools
+
+calls_seen = []
+
+
+def probe(x):
+    calls_seen.append(x)
+    return (x, x * 2)
+
+
+good = True
+for deco in (functools.cache, functools.lru_cache(maxsize=2), functools.lru_cache(maxsize=None), functools.lru_cache):
+    g = deco(probe)
+    good = good and all(g(x) == probe(x) for x in (1, 2, 3, 1, 2, 3, 1))
+check("functools.cache / lru_cache(maxsize) / lru_cache: the decorated function returns what the function returns (model: MemoFn runs the body)", good)
+
 print("ALL OK" if ok else "SOME MODEL DISAGREES")
 sys.exit(0 if ok else 1)
